@@ -420,6 +420,10 @@ func c08MapOrder(c *Ctx) {
 				c.R.Add(rule, cons, c.P.InstrPos(ml.In), OK, "")
 				continue
 			}
+			if staleWhy == "" && (c.sortedTogether(ml.In.Parent(), ml.In.(ssa.Value)) || c.sortedThroughPairs(ml.In.Parent(), ml.In.(ssa.Value))) {
+				c.R.Add(rule, cons, c.P.InstrPos(ml.In), OK, "")
+				continue
+			}
 			if staleWhy != "" {
 				c.R.Add(rule, cons, c.P.InstrPos(ml.In), Violation, staleWhy)
 				continue
@@ -570,4 +574,378 @@ func c08GlobalEscape(c *Ctx, prop string) {
 	}
 	c.R.Add(rule, "stores-examined", "-", OK, "")
 	c.R.Analysed["heap_stores_examined_for_global_alias"] = n
+}
+
+// derivedElementwise: slice d is filled as d[i] = g(keys[i]) (same index value) for every i of a loop over keys, and
+// written nowhere else in f.
+func derivedElementwise(f *ssa.Function, d ssa.Value, keys ssa.Value) bool {
+	ok, n := true, 0
+	instrs(f, func(b *ssa.BasicBlock, i int, in ssa.Instruction) {
+		st, isSt := in.(*ssa.Store)
+		if !isSt {
+			return
+		}
+		ia, isIA := st.Addr.(*ssa.IndexAddr)
+		if !isIA {
+			// a record element filled field by field: d[i].f = ..
+			if fa, isFA := st.Addr.(*ssa.FieldAddr); isFA {
+				ia, isIA = fa.X.(*ssa.IndexAddr)
+			}
+		}
+		if !isIA || !sameSlice(ia.X, d) {
+			return
+		}
+		n++
+		// the stored value derives from keys[<same index>]
+		from := false
+		seen := map[ssa.Value]bool{}
+		var walk func(v ssa.Value, depth int)
+		walk = func(v ssa.Value, depth int) {
+			if v == nil || seen[v] || depth > 8 {
+				return
+			}
+			seen[v] = true
+			switch x := v.(type) {
+			case *ssa.UnOp:
+				if ka, isKA := x.X.(*ssa.IndexAddr); isKA && sameSlice(ka.X, keys) && ka.Index == ia.Index {
+					from = true
+					return
+				}
+				// a record built in a local and copied into the element: what its fields were given
+				if al, isAl := x.X.(*ssa.Alloc); isAl {
+					for _, ref := range *al.Referrers() {
+						if fa, isFA := ref.(*ssa.FieldAddr); isFA {
+							for _, r2 := range *fa.Referrers() {
+								if s2, isS2 := r2.(*ssa.Store); isS2 && s2.Addr == ssa.Value(fa) {
+									walk(s2.Val, depth+1)
+								}
+							}
+						}
+					}
+					return
+				}
+				walk(x.X, depth+1)
+			case *ssa.Call:
+				for _, a := range x.Call.Args {
+					walk(a, depth+1)
+				}
+				if x.Call.IsInvoke() {
+					walk(x.Call.Value, depth+1)
+				}
+			case *ssa.MakeInterface:
+				walk(x.X, depth+1)
+			case *ssa.Convert:
+				walk(x.X, depth+1)
+			case *ssa.ChangeType:
+				walk(x.X, depth+1)
+			case *ssa.Extract:
+				walk(x.Tuple, depth+1)
+			case *ssa.Slice:
+				// the varargs slice of fmt.Sprint(..): its elements
+				if al, isAl := x.X.(*ssa.Alloc); isAl {
+					for _, ref := range *al.Referrers() {
+						if ea, isEA := ref.(*ssa.IndexAddr); isEA {
+							for _, r2 := range *ea.Referrers() {
+								if s2, isS2 := r2.(*ssa.Store); isS2 && s2.Addr == ssa.Value(ea) {
+									walk(s2.Val, depth+1)
+								}
+							}
+						}
+					}
+				}
+			}
+		}
+		walk(st.Val, 0)
+		if !from {
+			ok = false
+		}
+	})
+	return ok && n > 0
+}
+
+// sortedTogether: the keys are sorted by sort.Sort / sort.Stable on a struct of parallel slices whose Swap exchanges
+// the elements i and j of every slice field, and every other slice field was derived from the keys element by element
+// before the sort: whatever Less reads at i still belongs to the key at i.
+func (c *Ctx) sortedTogether(f *ssa.Function, keys ssa.Value) bool {
+	good := false
+	instrs(f, func(b *ssa.BasicBlock, i int, in ssa.Instruction) {
+		call, isC := in.(*ssa.Call)
+		if !isC || calleeOf(call) == nil || good {
+			return
+		}
+		if n := calleeOf(call).String(); n != "sort.Sort" && n != "sort.Stable" {
+			return
+		}
+		mi, isMI := call.Call.Args[0].(*ssa.MakeInterface)
+		if !isMI {
+			return
+		}
+		nt := namedOf(mi.X.Type())
+		if nt == nil || nt.Obj().Pkg() != c.P.Types {
+			return
+		}
+		st, isSt := nt.Underlying().(*types.Struct)
+		if !isSt {
+			return
+		}
+		// the struct value: a local built field by field
+		ld, isLd := mi.X.(*ssa.UnOp)
+		if !isLd {
+			return
+		}
+		al, isAl := ld.X.(*ssa.Alloc)
+		if !isAl {
+			return
+		}
+		fieldVal := map[string]ssa.Value{}
+		for _, ref := range *al.Referrers() {
+			fa, isFA := ref.(*ssa.FieldAddr)
+			if !isFA {
+				continue
+			}
+			for _, r2 := range *fa.Referrers() {
+				if s2, isS2 := r2.(*ssa.Store); isS2 && s2.Addr == ssa.Value(fa) {
+					fieldVal[fieldName(fa)] = s2.Val
+				}
+			}
+		}
+		holdsKeys := false
+		for i := 0; i < st.NumFields(); i++ {
+			fld := st.Field(i)
+			if _, isSl := fld.Type().Underlying().(*types.Slice); !isSl {
+				return // only slices travel in such a sorter
+			}
+			v := fieldVal[fld.Name()]
+			if v == nil {
+				return
+			}
+			if v == keys {
+				holdsKeys = true
+				continue
+			}
+			if !derivedElementwise(f, v, keys) {
+				return
+			}
+		}
+		if !holdsKeys {
+			return
+		}
+		// Swap exchanges i and j in every field
+		var swap *ssa.Function
+		for _, mf := range c.P.ModFuncs {
+			if mf.Name() == "Swap" && mf.Signature.Recv() != nil && namedOf(mf.Signature.Recv().Type()) == nt && len(mf.Blocks) > 0 {
+				swap = mf
+			}
+		}
+		if swap == nil || len(swap.Params) != 3 {
+			return
+		}
+		pi, pj := ssa.Value(swap.Params[1]), ssa.Value(swap.Params[2])
+		swapped := map[string][2]bool{}
+		instrs(swap, func(_ *ssa.BasicBlock, _ int, x ssa.Instruction) {
+			s2, isS2 := x.(*ssa.Store)
+			if !isS2 {
+				return
+			}
+			ia, isIA := s2.Addr.(*ssa.IndexAddr)
+			if !isIA {
+				return
+			}
+			fname := ""
+			switch y := ia.X.(type) {
+			case *ssa.UnOp:
+				if fa, isFA := y.X.(*ssa.FieldAddr); isFA {
+					fname = fieldName(fa)
+				}
+			case *ssa.Field:
+				fname = st.Field(y.Field).Name()
+			}
+			if fname == "" {
+				return
+			}
+			u, isU := s2.Val.(*ssa.UnOp)
+			if !isU {
+				return
+			}
+			src, isSrc := u.X.(*ssa.IndexAddr)
+			if !isSrc {
+				return
+			}
+			cur := swapped[fname]
+			if ia.Index == pi && src.Index == pj {
+				cur[0] = true
+			}
+			if ia.Index == pj && src.Index == pi {
+				cur[1] = true
+			}
+			swapped[fname] = cur
+		})
+		for i := 0; i < st.NumFields(); i++ {
+			if sw := swapped[st.Field(i).Name()]; !sw[0] || !sw[1] {
+				return
+			}
+		}
+		good = true
+	})
+	return good
+}
+
+// sortedThroughPairs: the keys are copied element by element into a slice of records (key and what it is sorted by),
+// that slice is sorted by sort.Slice with a comparison that indexes it, and every key is written back from the sorted
+// records, element by element, before the keys are used again.
+func (c *Ctx) sortedThroughPairs(f *ssa.Function, keys ssa.Value) bool {
+	good := false
+	instrs(f, func(b *ssa.BasicBlock, i int, in ssa.Instruction) {
+		call, isC := in.(*ssa.Call)
+		if !isC || calleeOf(call) == nil || good {
+			return
+		}
+		if n := calleeOf(call).String(); n != "sort.Slice" && n != "sort.SliceStable" {
+			return
+		}
+		mi, isMI := call.Call.Args[0].(*ssa.MakeInterface)
+		if !isMI {
+			return
+		}
+		pairs := mi.X
+		if pairs == keys || !derivedElementwise(f, pairs, keys) {
+			return
+		}
+		// the comparison indexes the slice being sorted
+		mc, isMC := call.Call.Args[1].(*ssa.MakeClosure)
+		if !isMC {
+			return
+		}
+		less, _ := mc.Fn.(*ssa.Function)
+		if less == nil {
+			return
+		}
+		own := true
+		instrs(less, func(_ *ssa.BasicBlock, _ int, x ssa.Instruction) {
+			ia, isIA := x.(*ssa.IndexAddr)
+			if !isIA {
+				return
+			}
+			u, isU := ia.X.(*ssa.UnOp)
+			if !isU {
+				own = false
+				return
+			}
+			fv, isFV := u.X.(*ssa.FreeVar)
+			if !isFV {
+				own = false
+				return
+			}
+			for k, w := range less.FreeVars {
+				if w == fv && k < len(mc.Bindings) {
+					// the binding is the cell that holds the pairs slice
+					cell, isCell := mc.Bindings[k].(*ssa.Alloc)
+					if !isCell {
+						own = false
+						continue
+					}
+					holds := false
+					for _, ref := range *cell.Referrers() {
+						if s2, isS2 := ref.(*ssa.Store); isS2 && s2.Addr == ssa.Value(cell) && (s2.Val == pairs || s2.Val == underSlice(pairs)) {
+							holds = true
+						}
+					}
+					if !holds {
+						own = false
+					}
+				}
+			}
+		})
+		if !own {
+			return
+		}
+		// written back: keys[i] = pairs[i].<field>, after the sort
+		back := false
+		instrs(f, func(_ *ssa.BasicBlock, _ int, x ssa.Instruction) {
+			s2, isS2 := x.(*ssa.Store)
+			if !isS2 {
+				return
+			}
+			ia, isIA := s2.Addr.(*ssa.IndexAddr)
+			if !isIA || !sameSlice(ia.X, keys) || !instrDominates(call, s2) {
+				return
+			}
+			// value read from pairs[<same index>]
+			var fromPairs func(v ssa.Value, depth int) bool
+			fromPairs = func(v ssa.Value, depth int) bool {
+				if depth > 4 {
+					return false
+				}
+				switch y := v.(type) {
+				case *ssa.UnOp:
+					switch a := y.X.(type) {
+					case *ssa.FieldAddr:
+						if pa, isPA := a.X.(*ssa.IndexAddr); isPA {
+							return sameSlice(pa.X, pairs) && pa.Index == ia.Index
+						}
+						// `e := pairs[i]` ... e.key: a local copy of the record of the same index
+						if cp, isCp := a.X.(*ssa.Alloc); isCp {
+							okCopy, n := true, 0
+							for _, ref := range *cp.Referrers() {
+								if s3, isS3 := ref.(*ssa.Store); isS3 && s3.Addr == ssa.Value(cp) {
+									n++
+									if !fromPairs(s3.Val, depth+1) {
+										okCopy = false
+									}
+								}
+							}
+							return okCopy && n > 0
+						}
+					case *ssa.IndexAddr:
+						return sameSlice(a.X, pairs) && a.Index == ia.Index
+					}
+				case *ssa.Field:
+					return fromPairs(y.X, depth+1)
+				}
+				return false
+			}
+			if fromPairs(s2.Val, 0) {
+				back = true
+			}
+		})
+		good = back
+	})
+	return good
+}
+
+// underSlice: the value a load of a single-assignment cell yields (the slice a captured local holds), else v.
+func underSlice(v ssa.Value) ssa.Value {
+	if u, ok := v.(*ssa.UnOp); ok {
+		if cell, ok := u.X.(*ssa.Alloc); ok {
+			var only ssa.Value
+			n := 0
+			for _, ref := range *cell.Referrers() {
+				if st, ok := ref.(*ssa.Store); ok && st.Addr == ssa.Value(cell) {
+					n++
+					only = st.Val
+				}
+			}
+			if n == 1 {
+				return only
+			}
+		}
+	}
+	return v
+}
+
+// sameSlice: v is the slice s, or a load of the cell that holds it.
+func sameSlice(v, s ssa.Value) bool {
+	if v == s || underSlice(v) == underSlice(s) {
+		return true
+	}
+	if u, ok := v.(*ssa.UnOp); ok {
+		if cell, ok := u.X.(*ssa.Alloc); ok {
+			for _, ref := range *cell.Referrers() {
+				if st, ok := ref.(*ssa.Store); ok && st.Addr == ssa.Value(cell) && st.Val == s {
+					return true
+				}
+			}
+		}
+	}
+	return false
 }
